@@ -9,7 +9,7 @@ def _lossmin(loss, mode_weight="identity", para=True, max_iteration=60, eq=True,
                      "mode_proj_order": "eq_ineq", "max_iteration": max_iteration}}
 
 
-def config(name, rng, tier):
+def config(name, rng, tier, seed=0):
     base = {
         "entry": "flow", "unknown": ["state", rng.choice(["a", "x0", "z0"])], "noise": ["lindbladian", {"lindbladian_base": "identity", "strength_h_part": 0.1, "strength_k_part": 0.1},
                                                                                          {"lindbladian_base": "identity", "strength_h_part": 0.1, "strength_k_part": 0.1}],
@@ -45,6 +45,30 @@ def config(name, rng, tier):
     if name == "single_povmt":
         base.update(entry="single", unknown=["povm", rng.choice(["x", "z"])], cases=[{"estimator": "linear", "para": True, "eps_proj_physical": 1e-9}], parallel_mode={},
                     seed_kind=rng.choice(["int_default", "generator"]), init_with_seed=True, num_data=[100])
+        return base
+    if name == "nested_threads_matrix":
+        # the nested (thread) level for every kind of unknown and estimator: the shared tomography object, composite system,
+        # template objects and option objects are touched by several threads
+        # the directed seed walks through the grid (unknown type x estimator pair) so that every combination is present
+        grid = [(u, k) for u in ("gate", "state", "povm", "mprocess", "gate") for k in (("plinear", "lossmin"), ("linear", "plinear"), ("lossmin", "lossmin"))]
+        ut, kinds_fixed = grid[seed % len(grid)]
+        base["unknown"] = [ut, rng.choice(workload.UNKNOWNS[ut])]
+        base["noise"] = rng.choice([["none", {}, {}], ["depolarized", {"error_rate": 0.05}, {"error_rate": 0.02}]])
+        kinds = list(kinds_fixed)
+        cases = []
+        for k in kinds:
+            if k == "lossmin":
+                cases.append(_lossmin(rng.choice(["fast_se", "fast_re"]), para=rng.random() < 0.5, max_iteration=15, eq=rng.random() < 0.8, ineq=rng.random() < 0.8))
+            else:
+                cases.append({"estimator": k, "para": rng.random() < 0.5, "eps_proj_physical": rng.choice([1e-9, 1e-4]), "mode_proj_order": rng.choice(["eq_ineq", "ineq_eq"])})
+        base["cases"] = cases
+        base["share_options"] = True
+        workload.normalise_shared_options(base)
+        base["num_data"] = [100] if ut in ("gate", "mprocess") else [100, 1000]
+        base["n_rep"] = 3
+        base["n_sample"] = 2
+        base["parallel_mode"] = rng.choice([{"per_sample_unit": 2, "per_estimator_execution": 2}, {"per_sample_unit": 2, "per_estimator_unit": 2}, {"per_sample_unit": 2, "per_data_generation": 2, "per_estimator_execution": 3},
+                                            {"per_data_generation": 2, "per_estimator_unit": 2, "per_estimator_execution": 2}])
         return base
     if name == "parent_tolerance":
         # the caller set a non-default global tolerance before the run; worker processes must behave as the caller does
